@@ -380,8 +380,40 @@ def check_C10(ctx):
     return reader_check(ctx, "C10")
 
 
+# ------------------------------------------------------------------------------------------------
+# C08
+# ------------------------------------------------------------------------------------------------
+def check_C08(ctx):
+    q = ctx.quick()
+    base = dict(MaxEv=6 if q else 7, Names=[1, 2], Scalars="<- ScalarsAB", AllowContainerKeys=False,
+                NormalizeAnchoredEmptyQuoted=False)
+    invs = ["InvTripAgrees", "InvClosedForms", "InvReplayBounded", "InvInjectDepth", "InvRecOrdered", "InvBuffers"]
+    for (t, p, s) in [(2, 1, 1), (0, 2, 1), (3, 1000000, 0), (4, 2, 64)] if q else [(2, 1, 1), (0, 2, 1), (3, 1000000, 0), (4, 2, 64), (1, 1, 1), (6, 3, 2)]:
+        run_mc(ctx, "MC_LiveEvents", dict(base, MaxTotalReplayed=t, MaxPerAnchor=p, MaxStackDepth=s), invs, workers=8, timeout=3000,
+               label=f"MC_LiveEvents_t{t}p{p}s{s}")
+    ctx.exhaustive = True
+    recs = ctx.path("recs.ndjson")
+    st = run_vh(ctx, ["c08", "--out", recs, "--random", 400 if q else 5000, "--seed", ctx.seed, "--thorough", 0 if q else 1], timeout=3000)
+    ctx.evaluations += st["records"]
+    ctx.distinct_nontrivial += st["nontrivial"]
+    ctx.samples += st["samples"]
+    mism = run_tv(ctx, "TV_Bounds", recs, timeout=3000)
+    matchers = {"C08-nested-anchor-recording": lambda rec, d: isinstance(d, dict) and d.get("verdict") == "heap" and d.get("rec", {}).get("family") == "nested"}
+    classify_mismatches(ctx, [(m[0], m[1], m[2], m[3]) for m in mism], None, matchers,
+                        "alias limit / delivered node count / peak heap outside Bounds.tla (FirstTrip, DeliveredNodes, K*(input+events))")
+    return finish(ctx, "model_checking",
+                  "model: every document up to 6/7 events x tightened (total, per-anchor, stack) limits, the pump must stop exactly where "
+                  "Bounds!FirstTrip says and deliver Bounds!DeliveredNodes; implementation: random aliased documents x 12 limit vectors "
+                  "decided from their raw events, plus attack families bomb(fanout<=6/10, levels<=6/8), chain(<=300/1000), "
+                  "nested(d<=100/200, n<=5000/20000), wide_merge, flat under default limits and a halved node budget, observed through a "
+                  "node-counting target and a counting allocator; non-trivial = documents with at least one alias",
+                  ASSUME_COMMON + ["peak heap is a measurement (counting global allocator); the specification only supplies the bound "
+                                   "K=700 bytes per (input byte + budget-counted event) + 64 KiB, fixed once from flat documents"])
+
+
 CHECKS = {
     "C02": check_C02,
+    "C08": check_C08,
     "C09": check_C09,
     "C10": check_C10,
     "C06": check_C06,
